@@ -557,6 +557,39 @@ def shared_lines() -> dict:
     return out
 
 
+def shared_line_texts() -> dict:
+    """{file relative to the repo: sorted list of the stripped source texts of its shared-looking lines}"""
+    out = {}
+    rd = repo_dir()
+    for f, lines in shared_lines().items():
+        try:
+            src = open(f, encoding="utf-8").read().splitlines()
+        except OSError:
+            continue
+        out[os.path.relpath(f, rd)] = sorted({src[ln - 1].strip() for ln in lines if 0 < ln <= len(src)})
+    return out
+
+
+def novel_groups() -> list:
+    """Files that touch shared state in a way the pinned tree did not (compared by line text with the committed baseline
+    simkit/shared_lines_baseline.json): state that a change has newly shared. Only used to give such groups a larger
+    share of the rendezvous runs - never to decide anything."""
+    import json
+
+    base_file = os.path.join(os.path.dirname(os.path.abspath(__file__)), "shared_lines_baseline.json")
+    try:
+        base = json.load(open(base_file))
+    except (OSError, ValueError):
+        return []
+    rd = repo_dir()
+    out = []
+    for rel, texts in shared_line_texts().items():
+        known = set(base.get(rel, []))
+        if any(t not in known for t in texts):
+            out.append(os.path.join(rd, rel))
+    return sorted(out)
+
+
 _code_groups_cache = None
 
 
